@@ -124,9 +124,16 @@ def run_case(case):
         machines.append(g)
     scale = float(np.abs(um).max() + 1) * float(max(abs(np.asarray(st.sum_px)).max() for st in stats) + 1) / float(uv.min())
     distinct = set()
-    for okind, norm, uas in itertools.product(("none", "cd", "ncd"), (False, True), ("prior", "map")):
+    # an ML machine that merely *carries* another machine in its `ubm` attribute (e.g. it was seeded from it) is itself the UBM
+    seedm = GMMMachine(C, weights=np.asarray(ubm.weights, float))
+    seedm.means = um - 2.0 * s
+    seedm.variances = uv * 0.5
+    mlm = GMMMachine(C, ubm=seedm, weights=np.asarray(ubm.weights, float))
+    mlm.means = um.copy()
+    mlm.variances = uv.copy()
+    for okind, norm, uas in itertools.product(("none", "cd", "ncd"), (False, True), ("prior", "map", "ml_with_ubm")):
         off = 0 if okind == "none" else (off_cd if okind == "cd" else off_ncd)
-        U = ubm if uas == "prior" else mapm
+        U = ubm if uas == "prior" else (mapm if uas == "map" else mlm)
         want = np.array([[ofa.linear_score(models[i], um, uv, np.asarray(stats[j].n), np.asarray(stats[j].sum_px), stats[j].t,
                                            None if okind == "none" else (off_cd if okind == "cd" else off_ncd[j]), norm)
                           for j in range(N)] for i in range(M)])
